@@ -300,3 +300,39 @@ func (e *Engine) syntaxFile(pos token.Pos) *ast.File {
 
 // FuncByName resolves a contract name.
 func (e *Engine) FuncByName(name string) *ssa.Function { return e.Funcs[name] }
+
+// GlobalInitValue returns the value a package initialiser stores into g (nil if unknown).
+func (e *Engine) GlobalInitValue(g *ssa.Global) ssa.Value { return e.globalInit[g] }
+
+// PosText gives "file:line" relative to the repository plus nothing else (for reports, never for names).
+func (e *Engine) PosText(pos token.Pos) string {
+	p := e.Fset.Position(pos)
+	f := strings.TrimPrefix(p.Filename, e.RepoDir+"/")
+	return fmt.Sprintf("%s:%d", f, p.Line)
+}
+
+// ExprTextAt returns the normalised source text of the operand of the range statement at pos.
+func (e *Engine) ExprTextAt(pos, alt token.Pos) string {
+	for _, p := range []token.Pos{alt, pos} {
+		if !p.IsValid() {
+			continue
+		}
+		file := e.syntaxFile(p)
+		if file == nil {
+			continue
+		}
+		var best ast.Node
+		ast.Inspect(file, func(n ast.Node) bool {
+			if rs, ok := n.(*ast.RangeStmt); ok {
+				if rs.For == p || rs.X.Pos() == p || rs.Pos() == p {
+					best = rs.X
+				}
+			}
+			return best == nil
+		})
+		if best != nil {
+			return e.exprText(best)
+		}
+	}
+	return ""
+}
